@@ -43,6 +43,15 @@ variable {F G : Type}
 def MsmKzg.appendTerm (m : MsmKzg F G) (s : F) (b : G) (l : Label) : MsmKzg F G :=
   m ++ [⟨s, b, l⟩]
 
+/-- `MSMKZG::init`. -/
+def MsmKzg.init : MsmKzg F G := []
+
+/-- `MSMKZG::from_many`: the vectors of the given MSMs are appended in order. -/
+def MsmKzg.fromMany (msms : List (MsmKzg F G)) : MsmKzg F G := msms.flatten
+
+/-- `MSMKZG::from_base`: the base with scalar one and no label. -/
+def MsmKzg.fromBase [One F] (b : G) : MsmKzg F G := [⟨1, b, .noLabel⟩]
+
 /-- `MSMKZG::add_msm`: the three vectors of `other` are appended. -/
 def MsmKzg.addMsm (m other : MsmKzg F G) : MsmKzg F G := m ++ other
 
